@@ -8,7 +8,8 @@
 (*   parse   Reaction.from_string: text, delimiters, the known names,      *)
 (*           raise_error, the resulting reaction or the error / warnings;  *)
 (*           src = "printed" means the text is the previous print's text   *)
-(*           with blanks added (st carries that print event)               *)
+(*           with blanks added (st carries that print event of the same    *)
+(*           trace id)                                                     *)
 (*   ring    pmutt.io.ring.read_reactions on a file given as its lines     *)
 (*   balance Reaction.check_element_balance: species (coefficient as exact *)
 (*           decimal <<m, e>>, composition) and accepted / rejected        *)
@@ -19,7 +20,8 @@
 (*   FormulaWitness FormulaDirect FormulaReader FormulaRaises |            *)
 (*   Unsupported UnknownEvent                                              *)
 (* Verdicts are total: failing clause names are accumulated in TLC         *)
-(* register 1 and printed by the postcondition.                            *)
+(* register 1 and printed by the postcondition.  Register 2 counts, per    *)
+(* situation name, the lines whose antecedent was non-trivial (vacuity).   *)
 (***************************************************************************)
 EXTENDS RxnString, Formula, Balance, TLC, TLCExt, Json, IOUtils
 
@@ -73,7 +75,7 @@ ParseClauses(e) ==
                   \cup (IF missTS # {} /\ ~\E w \in SeqToSet(e.warns), nm \in missTS : Named(w, e.text, nm)
                         THEN {"UnknownNamed"} ELSE {})))
       \cup (IF e.src = "printed"
-            THEN (IF NoBlanks(e.text) = NoBlanks(st.out) /\ e.spd = st.spd /\ e.rxd = st.rxd
+            THEN (IF st.tid = e.tid /\ NoBlanks(e.text) = NoBlanks(st.out) /\ e.spd = st.spd /\ e.rxd = st.rxd
                   THEN {} ELSE {"PadWitness"})
                  \cup (IF e.ok /\ ~RoundTripOK(st.r, st.d, got) THEN {"RoundTrip"} ELSE {})
             ELSE {})
@@ -89,7 +91,7 @@ RingClauses(e) ==
         THEN {} ELSE {"RingAgrees"}
 
 \* ---- balance: coefficient <<m, e>> = m * 10^e as an integer number of 10^-4
-CoefOK(c) == c[1] >= 0 /\ c[1] < 100000 /\ c[2] >= -4 /\ c[2] <= 1
+CoefOK(c) == c[2] >= -4 /\ c[2] <= 1 /\ c[1] >= 0 /\ c[1] <= 250000 \div PowTen(4 + c[2])     \* <= 25
 CoefUnits(c) == c[1] * PowTen(4 + c[2])
 BalSideOK(side) == \A i \in 1..Len(side) : CoefOK(side[i][1]) /\ \A m \in 1..Len(side[i][2]) : side[i][2][m][2] \in 0..999
 BalSide(side) == [i \in 1..Len(side) |-> [co |-> CoefUnits(side[i][1]), comp |-> side[i][2]]]
@@ -118,18 +120,72 @@ Clauses(e) ==
      [] e.ev = "formula" -> FormulaClauses(e)
      [] OTHER -> {"UnknownEvent"}
 
-NoPrint == [r |-> [re |-> <<>>, pr |-> <<>>, ts |-> <<>>], d |-> 0, out |-> <<>>, spd |-> <<>>, rxd |-> <<>>]
+\* ---- vacuity accounting: which situations the recorded lines actually exercised (register 2)
+Situations == {"print_ts", "print_nots", "print_nearint", "print_decimal", "print_omitted", "print_noTSopt",
+               "parse_raise", "parse_ts_dropped", "parse_merged", "parse_printed", "parse_ts", "parse_decimal",
+               "ring_multi", "ring_skipped",
+               "balance_balanced", "balance_unbalanced", "balance_ts", "balance_ts_decides", "balance_zero_entry",
+               "formula_repeat", "formula_nocount", "formula_twoletter", "formula_bigcount"}
+AllItems(p) == p.re \o p.pr \o p.ts
+Seen(e) ==
+   CASE e.ev = "print" /\ LoggedOK(e) ->
+          LET its == AllItems(Logged(e)) IN
+          (IF e.hasTS /\ e.incTS THEN {"print_ts"} ELSE {"print_nots"})
+          \cup (IF e.hasTS /\ ~e.incTS THEN {"print_noTSopt"} ELSE {})
+          \cup (IF \E i \in 1..Len(its) : NearInt(its[i].co) /\ (its[i].co[2] # 0 \/ its[i].co[3] # 0)
+                THEN {"print_nearint"} ELSE {})
+          \cup (IF \E i \in 1..Len(its) : ~NearInt(its[i].co) THEN {"print_decimal"} ELSE {})
+          \cup (IF \E i \in 1..Len(its) : NearOne(its[i].co) THEN {"print_omitted"} ELSE {})
+     [] e.ev = "parse" /\ RxnSupported(e.text, e.spd, e.rxd) ->
+          LET p == ParseRxn(e.text, e.spd, e.rxd)
+              known == SeqToSet(e.known)
+              missRP == (SideNames(p.re) \cup SideNames(p.pr)) \ known
+              missTS == SideNames(p.ts) \ known
+              its == AllItems(p) IN
+          (IF missRP # {} \/ (missTS # {} /\ e.strict) THEN {"parse_raise"} ELSE {})
+          \cup (IF missRP = {} /\ missTS # {} /\ ~e.strict THEN {"parse_ts_dropped"} ELSE {})
+          \cup (IF \E i \in 1..Len(its) : its[i].n > 1 THEN {"parse_merged"} ELSE {})
+          \cup (IF \E i \in 1..Len(its) : its[i].co[2] # 0 THEN {"parse_decimal"} ELSE {})
+          \cup (IF e.src = "printed" THEN {"parse_printed"} ELSE {})
+          \cup (IF p.hasTS THEN {"parse_ts"} ELSE {})
+     [] e.ev = "ring" ->
+          LET sel == SelectSeq(e.lines, LAMBDA ln : Contains(ln, e.rxd)) IN
+          (IF Len(sel) >= 2 THEN {"ring_multi"} ELSE {})
+          \cup (IF Len(sel) < Len(e.lines) THEN {"ring_skipped"} ELSE {})
+     [] e.ev = "balance" /\ BalSideOK(e.re) /\ BalSideOK(e.pr) /\ BalSideOK(e.ts) ->
+          LET r == [re |-> BalSide(e.re), pr |-> BalSide(e.pr), ts |-> IF e.hasTS THEN BalSide(e.ts) ELSE <<>>,
+                    hasTS |-> e.hasTS] IN
+          (IF Balanced(r) THEN {"balance_balanced"} ELSE {"balance_unbalanced"})
+          \cup (IF e.hasTS THEN {"balance_ts"} ELSE {})
+          \cup (IF e.hasTS /\ ~Balanced(r) /\ Balanced([r EXCEPT !.hasTS = FALSE]) THEN {"balance_ts_decides"} ELSE {})
+          \cup (IF \E i \in 1..Len(r.re) : \E m \in 1..Len(r.re[i].comp) : r.re[i].comp[m][2] = 0
+                THEN {"balance_zero_entry"} ELSE {})
+     [] e.ev = "formula" ->
+          LET items == FItemsOf(e.items) IN
+          (IF Len(Direct(items)) < Len(items) THEN {"formula_repeat"} ELSE {})
+          \cup (IF \E i \in 1..Len(items) : items[i].n = 0 THEN {"formula_nocount"} ELSE {})
+          \cup (IF \E i \in 1..Len(items) : Len(items[i].sym) = 2 THEN {"formula_twoletter"} ELSE {})
+          \cup (IF \E i \in 1..Len(items) : items[i].n >= 100 THEN {"formula_bigcount"} ELSE {})
+     [] OTHER -> {}
+Bump(f, S) == [k \in Situations |-> f[k] + (IF k \in S THEN 1 ELSE 0)]
+\* accounting costs a second reading of every text: only done when VACUITY=1 (a sample run)
+Accounting == "VACUITY" \in DOMAIN IOEnv /\ IOEnv.VACUITY = "1"
+
+NoPrint == [r |-> [re |-> <<>>, pr |-> <<>>, ts |-> <<>>], d |-> 0, out |-> <<>>, spd |-> <<>>, rxd |-> <<>>,
+            tid |-> -1]
 Step(e) == IF e.ev = "print" /\ LoggedOK(e)
-           THEN [r |-> PrintedRxn(e), d |-> e.d, out |-> e.out, spd |-> e.spd, rxd |-> e.rxd]
+           THEN [r |-> PrintedRxn(e), d |-> e.d, out |-> e.out, spd |-> e.spd, rxd |-> e.rxd, tid |-> e.tid]
            ELSE IF e.ev = "print" THEN NoPrint ELSE st
 
-Init == l = 1 /\ st = NoPrint /\ TLCSet(1, {})
+Init == l = 1 /\ st = NoPrint /\ TLCSet(1, {}) /\ TLCSet(2, [k \in Situations |-> 0])
 Next == /\ l <= Len(TraceLog)
         /\ LET e == TraceLog[l]  bad == Clauses(e) IN
              /\ IF bad # {} THEN TLCSet(1, TLCGet(1) \cup {<<e.tid, l, c>> : c \in bad}) ELSE TRUE
+             /\ IF Accounting THEN TLCSet(2, Bump(TLCGet(2), Seen(e))) ELSE TRUE
              /\ st' = Step(e)
         /\ l' = l + 1
 Spec == Init /\ [][Next]_<<l, st>>
 Post == /\ PrintT(<<"FAILS", TLCGet(1)>>)
+        /\ PrintT(<<"SEEN", TLCGet(2)>>)
         /\ PrintT(<<"CONSUMED", TLCGet("stats").diameter - 1>>)
 =============================================================================
